@@ -182,3 +182,35 @@ def attr_dispatch_matches(fn_body):
             if sum(1 for a in arms if a["const"] and "class_constants::attribute::" in a["const"]) >= 2:
                 out.append(n)
     return out
+
+
+# ---------------------------------------------------------------- narrowing casts (R01.9 / R02.8), decided by the A1 interval analysis
+def narrowing_rule(F, R, rid, text, pred, floor):
+    """Every int-to-int `as` cast in the selected (monomorphic, reachable) functions is value-preserving under the interval analysis,
+    or is listed in reviewed_safe.json with the reason why truncation is intended / impossible."""
+    import re
+    from lib import mir as M
+    R.rule(rid, text)
+    P = M.load_program(F)
+    seen = {}
+    n = 0
+    for (f, bi, s, v, sty, to, ok) in M.narrowing_casts(P, pred):
+        if sty == to:
+            continue
+        r_src, r_to = M.INT.get(sty), M.INT.get(to)
+        if r_src and r_to and r_to[0] <= r_src[0] and r_src[1] <= r_to[1]:
+            continue            # widening by type: nothing to prove
+        n += 1
+        fn = re.sub(r"\{closure#\d+\}", "{closure}", re.sub(r"<impl [^>]*>+", "<impl>", f.path))
+        base = "%s:cast:%s->%s:%s" % (fn, sty, to, f.describe(s["rv"]["a"]))
+        k = seen.get(base, 0) + 1
+        seen[base] = k
+        key = base if k == 1 else "%s#%d" % (base, k)
+        why = "value %s fits %s" % (M.show(v), to)
+        if not ok and key in R.reviewed:
+            R.used_reviewed.append({"key": key, "reason": R.reviewed[key]["reason"]})
+            ok, why = True, "reviewed-safe: " + R.reviewed[key]["reason"]
+        R.inst(rid, key, ok, sp=(s.get("sp") or "").replace(F.repo.rstrip("/") + "/", ""),
+               detail=why if ok else "`as %s` may truncate: the operand is only known to lie in %s" % (to, M.show(v)))
+    R.floor(rid, floor)
+    return n
